@@ -797,3 +797,75 @@ Proof.
   split; [vm_compute; reflexivity|]. split; [vm_compute; auto|]. split; [cbn; auto|].
   cbn. intros (_ & H & _). specialize (H eq_refl). discriminate H.
 Qed.
+
+(* ---- C06: irrelevant variation of the source does not change what the walker extracts ---- *)
+Lemma absint_block_app a b k :
+  absint_block (a ++ b) k =
+  (fst (absint_block b (fst (absint_block a k))),
+   snd (absint_block a k) ++ snd (absint_block b (fst (absint_block a k)))).
+Proof.
+  revert k. induction a as [|x a IH]; intros k; cbn [app absint_block].
+  - cbn. now destruct (absint_block b k).
+  - destruct (absint x k) as [k1 f1]. rewrite IH.
+    destruct (absint_block a k1) as [k2 f2]. cbn [fst snd].
+    destruct (absint_block b k2) as [k3 f3]. cbn [fst snd]. now rewrite app_assoc.
+Qed.
+
+Lemma block_ok_app va vk a b : block_ok va vk (a ++ b) = block_ok va vk a && block_ok va vk b.
+Proof. unfold block_ok. apply forallb_app. Qed.
+
+(* an unrelated call f(<constant>) inserted anywhere: the other calls keep their flags, the new
+   call forwards nothing *)
+Theorem unrelated_call_invariant va vk l1 l2 f :
+  va <> vk -> block_ok va vk (l1 ++ l2) = true -> names_ok va vk (SOther f) = true ->
+  exists f1 f2,
+    visitor_flags va vk (l1 ++ l2) = Some (f1 ++ f2) /\
+    visitor_flags va vk (l1 ++ SOther f :: l2) = Some (f1 ++ dflags :: f2) /\
+    length f1 = ncalls_block l1.
+Proof.
+  intros Hne Hok Hf. rewrite block_ok_app in Hok. apply Bool.andb_true_iff in Hok as [H1 H2].
+  assert (Hok2 : block_ok va vk (l1 ++ SOther f :: l2) = true).
+  { rewrite block_ok_app. rewrite H1. unfold block_ok in *. cbn [forallb]. now rewrite Hf, H2. }
+  rewrite (visitor_flags_absint va vk (l1 ++ l2) Hne) by (rewrite block_ok_app; now rewrite H1, H2).
+  rewrite (visitor_flags_absint va vk _ Hne Hok2).
+  rewrite !absint_block_app. cbn [snd fst absint_block absint].
+  destruct (shape_b l1 (true, true)) as [_ Len].
+  destruct (absint_block l1 (true, true)) as [k1 f1]. cbn [fst snd] in *.
+  destruct (absint_block l2 k1) as [k2 f2]. cbn [fst snd].
+  exists f1, f2. split; [reflexivity|]. split; [reflexivity|exact Len].
+Qed.
+
+(* a local alias of *args (read only): nothing changes *)
+Theorem alias_args_invariant va vk l1 l2 y :
+  va <> vk -> block_ok va vk (l1 ++ l2) = true -> names_ok va vk (SAlias y SA) = true ->
+  visitor_flags va vk (l1 ++ SAlias y SA :: l2) = visitor_flags va vk (l1 ++ l2).
+Proof.
+  intros Hne Hok Hy. pose proof Hok as Hok0.
+  rewrite block_ok_app in Hok. apply Bool.andb_true_iff in Hok as [H1 H2].
+  assert (Hok2 : block_ok va vk (l1 ++ SAlias y SA :: l2) = true).
+  { rewrite block_ok_app. rewrite H1. unfold block_ok in *. cbn [forallb]. now rewrite Hy, H2. }
+  rewrite (visitor_flags_absint va vk (l1 ++ l2) Hne Hok0), (visitor_flags_absint va vk _ Hne Hok2).
+  rewrite !absint_block_app. cbn [snd fst absint_block absint].
+  destruct (absint_block l1 (true, true)) as [k1 f1]. cbn [fst snd].
+  destruct (absint_block l2 k1) as [k2 f2]. reflexivity.
+Qed.
+
+(* statement context: the same statements under a branch `if <constant>:` (with the following
+   ones in the else branch or after it) give the same flags, in the same order *)
+Theorem branch_context_invariant va vk l1 a b l2 :
+  va <> vk -> block_ok va vk (l1 ++ a ++ b ++ l2) = true ->
+  visitor_flags va vk (l1 ++ SIf a b :: l2) = visitor_flags va vk (l1 ++ a ++ b ++ l2).
+Proof.
+  intros Hne Hok. pose proof Hok as Hok0.
+  rewrite !block_ok_app in Hok. apply Bool.andb_true_iff in Hok as [H1 Hok].
+  apply Bool.andb_true_iff in Hok as [Ha Hok]. apply Bool.andb_true_iff in Hok as [Hb H2].
+  assert (Hok2 : block_ok va vk (l1 ++ SIf a b :: l2) = true).
+  { rewrite block_ok_app. rewrite H1. unfold block_ok at 1. cbn [forallb]. rewrite names_ok_if, Ha, Hb.
+    unfold block_ok in H2. now rewrite H2. }
+  rewrite (visitor_flags_absint va vk _ Hne Hok0), (visitor_flags_absint va vk _ Hne Hok2).
+  rewrite !absint_block_app. cbn [snd fst absint_block]. rewrite absint_if.
+  destruct (absint_block l1 (true, true)) as [k1 f1]. cbn [fst snd].
+  destruct (absint_block a k1) as [k2 f2]. cbn [fst snd].
+  destruct (absint_block b k2) as [k3 f3]. cbn [fst snd].
+  destruct (absint_block l2 k3) as [k4 f4]. cbn [fst snd]. now rewrite !app_assoc.
+Qed.
